@@ -223,8 +223,8 @@ def check_ctor(case):
 
 
 OBLIGATIONS = [
-    Obligation('call-return-contract', contract_case(), check_contract, quick=700, thorough=20000),
-    Obligation('call-return-contract-slow-classes', contract_case(include_slow=True), check_contract, quick=0, thorough=400),
+    Obligation('call-return-contract', contract_case(), check_contract, quick=700, thorough=8000),
+    Obligation('call-return-contract-slow-classes', contract_case(include_slow=True), check_contract, quick=0, thorough=96),
     Obligation('constructor-contract', ctor_case(), check_ctor, quick=500, thorough=5000),
 ]
 # coverage-guided supplement (atheris / libFuzzer over the same strategy and oracle; see vp/fuzz.py)
